@@ -74,6 +74,7 @@ func plan(prop, tier string) []Part {
 			{Name: "nq", N: q(tier, 300, 6000), Chunk: 40, Procs: []int{2, 16, 4, 1}, Timeout: to},
 			{Name: "err", N: q(tier, 200, 4000), Chunk: 40, Procs: []int{2, 16, 4, 1}, Timeout: to},
 			{Name: "queue", N: q(tier, 120, 2400), Chunk: 10, Procs: []int{2, 16, 4, 1}, Timeout: to},
+			{Name: "late", N: q(tier, 200, 4000), Chunk: 40, Procs: []int{2, 16, 4, 1}, Timeout: to},
 		}
 	case "C10":
 		return []Part{
